@@ -38,6 +38,8 @@ pub enum Profile {
     FarDyadic,
     /// as FarDyadic but the shape spans only a few 1/256 steps: its area is far below one ulp of x*y
     FarTiny,
+    /// as NonNan, with one coordinate in eight a NaN: X and Y included
+    WithNan,
 }
 
 pub fn f_dyadic() -> BoxedStrategy<F> {
@@ -125,6 +127,7 @@ pub fn f_profile(p: Profile) -> BoxedStrategy<F> {
         Profile::Moderate => f_moderate(),
         Profile::FarDyadic => (-1024i32..=1024).prop_map(|k| F::of(k as f64 / 256.0)).boxed(),
         Profile::FarTiny => (-6i32..=6).prop_map(|k| F::of(k as f64 / 256.0)).boxed(),
+        Profile::WithNan => prop_oneof![4 => f_small(), 3 => f_nonnan(), 1 => f_nan()].boxed(),
     }
 }
 
@@ -374,9 +377,14 @@ pub fn profile_mix() -> BoxedStrategy<Profile> {
     .boxed()
 }
 
+/// The mix for checks whose property does not exclude NaN coordinates.
+pub fn profile_mix_nan() -> BoxedStrategy<Profile> {
+    prop_oneof![8 => profile_mix(), 1 => Just(Profile::WithNan)].boxed()
+}
+
 /// n shapes of one type, n skewed small, sizes deliberately unequal.
 pub fn shapes(ty: Ty, min_n: usize, max_n: usize, nan_zm: bool, max_parts: usize, max_pts: usize) -> BoxedStrategy<Vec<Geom>> {
-    (profile_mix(), 0u8..12, any::<u16>())
+    (if nan_zm { profile_mix_nan() } else { profile_mix() }, 0u8..12, any::<u16>())
         .prop_flat_map(move |(p, rel, ix)| {
             svec(geom(ty, GenCfg::new(p, nan_zm, max_parts, max_pts)), min_n, max_n).prop_map(move |mut v| {
                 // relations BETWEEN the shapes of a file: a shape repeated right after itself, all shapes identical,
